@@ -7,6 +7,7 @@ import (
 	"os"
 	"os/exec"
 	"path/filepath"
+	"runtime"
 	"strings"
 	"syscall"
 	"time"
@@ -125,7 +126,7 @@ func FaultChildMain(args []string) int {
 	}
 	bts, _ := json.Marshal(r)
 	os.WriteFile(out, bts, 0o644)
-	_ = w // keep the Watcher reachable: no finalizer may hide a leaked descriptor
+	runtime.KeepAlive(w) // keep the Watcher reachable until here: no finalizer may hide a leaked descriptor
 	return 0
 }
 
